@@ -363,6 +363,12 @@ func (cacheStream) Generate(rng *rand.Rand, tier string, emit func(Case)) {
 				}
 			}
 		}
+		if i%6 == 1 {
+			// an auto-refresh cache whose directories are removed altogether (rm -rf), which the cache notices, and then
+			// come back with the same content (a package reinstalled, a tmpfs remounted): after a refresh the cache shows
+			// what is there
+			emit(Case{"op": "refresh", "layout": lm, "auto": true, "rmdirs": true, "nospawn": true})
+		}
 		if i%5 == 0 {
 			// the same through an auto-refresh cache (explicit Refresh on an up-to-date cache reports the cached errors)
 			emit(Case{"op": "refresh", "layout": lm, "auto": true, "nospawn": true})
@@ -375,7 +381,7 @@ func (cacheStream) Generate(rng *rand.Rand, tier string, emit func(Case)) {
 				case 0:
 					req = append(req, "unknown.com/c=x")
 				case 1:
-					req = append(req, "not a device")
+					req = append(req, []string{"not a device", "", " ", ",", "=", "/", "a/b=", "\x00"}[rng.Intn(8)])
 				default:
 					req = append(req, poolVendors[rng.Intn(2)]+"/"+poolClasses[rng.Intn(2)]+"="+poolDevs[rng.Intn(3)])
 				}
@@ -753,6 +759,28 @@ func (cacheStream) Execute(c Case) {
 		for deadline := time.Now().Add(4 * time.Second); time.Now().Before(deadline) && cache.GetDevice("late.com/latecls=d0") == nil; time.Sleep(10 * time.Millisecond) {
 		}
 	}
+	if rm, _ := c["rmdirs"].(bool); rm && cache != nil {
+		_ = cache.ListDevices()
+		phys, bak := filepath.Join(cacheRoot, "phys"), cacheRoot+".bak"
+		_ = os.RemoveAll(bak)
+		if exec.Command("cp", "-a", phys, bak).Run() == nil {
+			if ents, err := os.ReadDir(phys); err == nil {
+				for _, e := range ents {
+					_ = os.RemoveAll(filepath.Join(phys, e.Name()))
+				}
+			}
+			for k := 0; k < 8; k++ { // the removal is noticed (events, and queries that find the watches gone)
+				_ = cache.ListDevices()
+				time.Sleep(15 * time.Millisecond)
+			}
+			_ = exec.Command("cp", "-a", bak+"/.", phys+"/").Run()
+			_ = os.RemoveAll(bak)
+			fresh, _ := cdi.NewCache(cdi.WithSpecDirs(dirs...), cdi.WithAutoRefresh(false))
+			want := strings.Join(fresh.ListDevices(), ",")
+			for deadline := time.Now().Add(4 * time.Second); time.Now().Before(deadline) && strings.Join(cache.ListDevices(), ",") != want; time.Sleep(20 * time.Millisecond) {
+			}
+		}
+	}
 	if rs, ok := c["restore"].([]any); ok && len(rs) > 0 {
 		// watched directories lose their read permission; a refresh happens meanwhile (triggered by a change in
 		// another watched directory); the permission comes back — which no event announces
@@ -854,6 +882,19 @@ func (cacheStream) Execute(c Case) {
 				sp := Case{"stream": "cache", "op": "inject", "layout": c["layout"], "req": hxList(req), "niloci": false, "ocikind": k}
 				cacheStream{}.Execute(sp)
 				spawned = append(spawned, sp)
+			}
+			// every listed device and exactly one name that cannot resolve, of the least conspicuous kinds (the empty
+			// name - the last element of strings.Split("a,", ",") -, a blank), first / last in the request
+			if len(devs) > 0 {
+				for k, miss := range []string{"", " "} {
+					req := append(append([]string{}, devs...), miss)
+					if k == 1 {
+						req = append([]string{miss}, devs...)
+					}
+					sp := Case{"stream": "cache", "op": "inject", "layout": c["layout"], "req": hxList(req), "niloci": false, "ocikind": k + 1}
+					cacheStream{}.Execute(sp)
+					spawned = append(spawned, sp)
+				}
 			}
 			// every listed device on a cache that first had the directories reversed
 			if dl, _ := c["layout"].(map[string]any); dl != nil && len(devs) > 0 {
